@@ -310,11 +310,129 @@ def build_ops():
                     lambda tz=tz: datetime.datetime(2023, 3, 1, 17, 0, 0, tzinfo=UTC).astimezone(tz))))
         ops.append((f"type:Time.unconvert:same-instant:{nm}", op_type("Time", ((), {}), "unconvert",
                     lambda tz=tz: datetime.datetime(2023, 3, 1, 17, 0, 0, tzinfo=UTC).astimezone(tz).timetz())))
+    # one tzinfo object that renders differently for different values (daylight saving), and two fixed zones with
+    # equal offsets but different names: what is written must follow the value, not what the zone last looked like
+    class _DstZone(datetime.tzinfo):
+        def utcoffset(self, dt):
+            return datetime.timedelta(hours=-4 if dt is not None and 4 <= dt.month <= 10 else -5)
+
+        def dst(self, dt):
+            return datetime.timedelta(hours=1 if dt is not None and 4 <= dt.month <= 10 else 0)
+
+        def tzname(self, dt):
+            return "EDT" if dt is not None and 4 <= dt.month <= 10 else "EST"
+    dstzone = _DstZone()
+    ops.append(("type:DateTime.unconvert:dstzone:winter", op_type("DateTime", ((), {}), "unconvert",
+                lambda: datetime.datetime(2024, 1, 15, 12, 0, 0, tzinfo=dstzone))))
+    ops.append(("type:DateTime.unconvert:dstzone:summer", op_type("DateTime", ((), {}), "unconvert",
+                lambda: datetime.datetime(2024, 7, 15, 12, 0, 0, tzinfo=dstzone))))
+    for nm in ("EST", "CDT"):
+        ops.append((f"type:DateTime.unconvert:minus5:{nm}", op_type("DateTime", ((), {}), "unconvert",
+                    lambda nm=nm: datetime.datetime(2024, 3, 1, 8, 30, 0, tzinfo=datetime.timezone(datetime.timedelta(hours=-5), nm)))))
     ops.append(("type:DateTime.unconvert:naive", op_type("DateTime", ((), {}), "unconvert",
                                                           lambda: datetime.datetime(2020, 1, 1, 12, 0, 0))))
     ops.append(("type:DateTime.convert:dt", op_type("DateTime", ((), {}), "convert",
                                                      lambda: datetime.datetime(2020, 6, 1, 1, 2, 3, tzinfo=est))))
     ops.append(("type:Time.convert", op_type("Time", ((), {}), "convert", "123456.789[-5:EST]")))
+
+    # repetition: the same work many times in a row (also work that FAILS half-way through writing, converting
+    # or parsing), then one good pipeline whose result is what counts
+    good = _file(docs["stmt"], 203, "v2", False)
+
+    bad_enum_file = _file(docs["bad_enum"], 102, "v1u", False)
+
+    def burst(kind, n):
+        def fn():
+            from ofxtools.Parser import OFXTree
+            outcomes = []
+            t = OFXTree()
+            t.parse(io.BytesIO(good))
+            inst = t.convert()
+            if kind == "bad-write":
+                inst.bankmsgsrsv1[0].stmtrs.banktranlist.append("not an aggregate")
+            tb = OFXTree()
+            tb.parse(io.BytesIO(bad_enum_file))
+            for i in range(n):
+                try:
+                    if kind == "bad-parse":
+                        OFXTree().parse(io.BytesIO(good[:-9]))
+                    elif kind == "bad-write":
+                        inst.to_etree()
+                    else:
+                        tb.convert()
+                    outcomes.append("ok")
+                except Exception as e:          # noqa
+                    outcomes.append(type(e).__name__)
+            final = op_pipeline(good, {"version": 203})()
+            return {"outcomes": sorted(set(outcomes)), "final": final}
+        return fn
+    for kind in ("bad-write", "bad-parse", "bad-convert"):
+        ops.append((f"burst:{kind}:x24", burst(kind, 24)))
+
+    # one instant in several zones: what is written must depend on the value alone, not on what was written before
+    ist = datetime.timezone(datetime.timedelta(hours=5, minutes=30), "IST")
+    for nm, tz in (("utc", UTC), ("est", est), ("ist", ist)):
+        ops.append((f"type:DateTime.unconvert:same-instant:{nm}", op_type("DateTime", ((), {}), "unconvert",
+                    lambda tz=tz: datetime.datetime(2023, 3, 1, 17, 0, 0, tzinfo=UTC).astimezone(tz))))
+        ops.append((f"type:Time.unconvert:same-instant:{nm}", op_type("Time", ((), {}), "unconvert",
+                    lambda tz=tz: datetime.datetime(2023, 3, 1, 17, 0, 0, tzinfo=UTC).astimezone(tz).timetz())))
+    # one tzinfo object that renders differently for different values (daylight saving), and two fixed zones with
+    # equal offsets but different names: what is written must follow the value, not what the zone last looked like
+    class _DstZone(datetime.tzinfo):
+        def utcoffset(self, dt):
+            return datetime.timedelta(hours=-4 if dt is not None and 4 <= dt.month <= 10 else -5)
+
+        def dst(self, dt):
+            return datetime.timedelta(hours=1 if dt is not None and 4 <= dt.month <= 10 else 0)
+
+        def tzname(self, dt):
+            return "EDT" if dt is not None and 4 <= dt.month <= 10 else "EST"
+    dstzone = _DstZone()
+    ops.append(("type:DateTime.unconvert:dstzone:winter", op_type("DateTime", ((), {}), "unconvert",
+                lambda: datetime.datetime(2024, 1, 15, 12, 0, 0, tzinfo=dstzone))))
+    ops.append(("type:DateTime.unconvert:dstzone:summer", op_type("DateTime", ((), {}), "unconvert",
+                lambda: datetime.datetime(2024, 7, 15, 12, 0, 0, tzinfo=dstzone))))
+    for nm in ("EST", "CDT"):
+        ops.append((f"type:DateTime.unconvert:minus5:{nm}", op_type("DateTime", ((), {}), "unconvert",
+                    lambda nm=nm: datetime.datetime(2024, 3, 1, 8, 30, 0, tzinfo=datetime.timezone(datetime.timedelta(hours=-5), nm)))))
+    ops.append(("type:DateTime.unconvert:naive", op_type("DateTime", ((), {}), "unconvert",
+                                                          lambda: datetime.datetime(2020, 1, 1, 12, 0, 0))))
+    ops.append(("type:DateTime.convert:dt", op_type("DateTime", ((), {}), "convert",
+                                                     lambda: datetime.datetime(2020, 6, 1, 1, 2, 3, tzinfo=est))))
+    ops.append(("type:Time.convert", op_type("Time", ((), {}), "convert", "123456.789[-5:EST]")))
+
+    # repetition: the same work many times in a row (also work that FAILS half-way through writing, converting
+    # or parsing), then one good pipeline whose result is what counts
+    good = _file(docs["stmt"], 203, "v2", False)
+
+    def burst(kind, n):
+        def fn():
+            from ofxtools.Parser import OFXTree
+            outcomes = []
+            for i in range(n):
+                try:
+                    t = OFXTree()
+                    if kind == "bad-parse":
+                        t.parse(io.BytesIO(good[:-9]))
+                    else:
+                        t.parse(io.BytesIO(good))
+                        inst = t.convert()
+                        if kind == "bad-write":
+                            inst.bankmsgsrsv1[0].stmtrs.banktranlist.append("not an aggregate")
+                            inst.to_etree()
+                        elif kind == "bad-convert":
+                            t._root[1][0][2][0].text = "XXX"      # CURDEF -> unknown currency
+                            t.convert()
+                        else:
+                            inst.to_etree()
+                    outcomes.append("ok")
+                except Exception as e:          # noqa
+                    outcomes.append(type(e).__name__)
+            final = op_pipeline(good, {"version": 203})()
+            return {"outcomes": sorted(set(outcomes)), "final": final}
+        return fn
+    for kind in ("bad-write", "bad-parse", "bad-convert", "good"):
+        ops.append((f"burst:{kind}:x30", burst(kind, 30)))
     ops.append(("type:Time.unconvert", op_type("Time", ((), {}), "unconvert",
                                                 lambda: datetime.time(12, 0, 0, tzinfo=UTC))))
     ops.append(("type:Decimal.convert:comma", op_type("Decimal", ((2,), {}), "convert", "1,5")))
@@ -460,9 +578,9 @@ class Threads:
         self.ch = ch
         import ofxtools
         base = os.path.dirname(ofxtools.__file__) + os.sep
-        self.mean = [30, 3, 300, 3000][ch.pick("cfg.mean_quantum", 4)]
+        self.mean = [30, 3, 300, 3000][ch.weighted("cfg.mean_quantum", [4, 1.5, 3, 2])]
         self.sim = sched.Sim(ch, line_prefixes=(base, functools.__file__), mean_quantum=self.mean,
-                             step_cap=6_000_000)
+                             step_cap=1_500_000)
         sched.CURRENT = self.sim
         self.sim.line_probe = self.line_probe
         if ch.flag("cfg.hotzone", 0.5):
